@@ -27,6 +27,20 @@ CLAIMED = {
              "dec_and_test polarity, SEQ_CST orders, strong CAS); indivisibility from the per-path event trace (one builtin and no "
              "plain access; sync get/set barrier side; sim: every access inside the one global mutex, balanced); operand width. " + DECIDES % "C04",
         technique="symbolic term evaluation of each operation against a specification term + per-path event-trace discipline (lock coverage, barrier side, single RMW)"),
+    "C02": dict(
+        text="Rules C02.1-C02.6. posix model: six wrappers wired to the right pthread_rwlock call (through their static helper), "
+             "TRUE iff 0, try-functions non-blocking. general model (never built by the suite): the internal mutex is taken and "
+             "released exactly once on every path; the packed counters are touched only under it; every condition wait passes the "
+             "held mutex, is registered in the waiter field the waker tests, and is followed by a re-evaluation of the admission "
+             "predicate before the lock is granted; readers are admitted only with the writer field known zero, writers only with the "
+             "whole counter zero; field masks/shifts agree across all functions; unlock wakes what becomes grantable (read_cv only by "
+             "broadcast). " + DECIDES % "C02",
+        technique="wrapper-wiring check; term-valued path-sensitive dataflow with mutex typestate, epoch reset at condition waits, packed-field classification and wake-obligation check at returns"),
+    "C03": dict(
+        text="Rules C03.1-C03.2: wait/signal/broadcast call pthread_cond_wait/signal/broadcast on &cond->hdl, TRUE iff 0, no cross-wiring "
+             "(a broadcast degenerating to signal is reported); the PMutex pointer cast to pthread_mutex_t* is justified by the record "
+             "layout of struct PMutex_ (pthread_mutex_t at offset 0). " + DECIDES % "C03",
+        technique="wrapper-wiring check plus cross-unit record-layout check"),
 }
 
 NOT_YET = "check not yet armed (framework under construction); see DESIGN.md section 4 for the planned structural clauses"
